@@ -604,6 +604,15 @@ func (o *MaryTransactionOutput) UnmarshalCBOR(cborData []byte) error {
 	return nil
 }
 
+func (o *MaryTransactionOutput) MarshalCBOR() ([]byte, error) {
+	// Return the original CBOR if available so that re-encoding a decoded
+	// object reproduces the exact bytes it was decoded from
+	if o.Cbor() != nil {
+		return o.Cbor(), nil
+	}
+	return cbor.EncodeGeneric(o)
+}
+
 func (o MaryTransactionOutput) MarshalJSON() ([]byte, error) {
 	tmpObj := struct {
 		Address common.Address                                  `json:"address"`
